@@ -550,7 +550,7 @@ def owners(clause: str, event: Optional[Dict[str, Any]] = None) -> set:
         own.add('C06')
     if ev == 'agree' or mode == 'obs':
         own.add('C11')
-    if ev in ('trick', 'peek'):
+    if ev in ('trick', 'peek', 'highest'):
         own.add('C04')
     if fails & {'leader', 'active', 'tricknum', 'taken', 'hist', 'done', 'contract'}:
         own.add('C04')
@@ -674,6 +674,21 @@ def run_into(chk: Check, pid: str, tier: str) -> None:
         for evs in pmap(trick_events, tj):
             events.extend(evs)
         chk.extra['winner_table'] = {'pack': pack, 'tuples': len(tup), 'trumps': 5}
+        # the public helper itself, called directly: every suit (and NT) x lists
+        # of 0..4 cards (with repeats of a suit, voids, the full pack)
+        (Bid, Card, Contract, Hands, Obs, Pair, Player, PP, PPH, Suit, Vul) = _imports()
+        hk = 0
+        for n_ in range(0, 5):
+            for _ in range(60 if quick else 1500):
+                cs_ = r.sample(range(52), n_)
+                for su in range(5):
+                    e = {'tid': f'h{hk}', 'ev': 'highest', 'suit': su, 'cards': cs_, 'res': 'ok', 'out': -9}
+                    try:
+                        e['out'] = int(PP.calc_highest(Suit(su + 1), [card(c) for c in cs_]))
+                    except Exception:  # noqa
+                        e['res'] = 'raises'
+                    events.append(e)
+                    hk += 1
     if pid == 'C06':
         pack = PACK8 if quick else PACK12
         hands = [list(c) for n in range(0, len(pack) + 1)
@@ -801,7 +816,7 @@ def run_into(chk: Check, pid: str, tier: str) -> None:
         if e['ev'] == 'new':
             plays_so_far[(e['tid'], e['o'])] = [e['trump'], e['decl'], []]
             continue
-        if e['ev'] == 'peek':
+        if e['ev'] in ('peek', 'highest'):
             continue
         if e['ev'] in ('trick',):
             seen.add(hash(('t', e['trump'], tuple(e['cards']))))
